@@ -215,7 +215,18 @@ func (g *gen) expr(typ string, depth int) string {
 	return e
 }
 
+func (g *gen) mayFault() bool {
+	if g.noFault || g.curHasCall {
+		return false
+	}
+	g.curHasFault = true
+	return true
+}
+
 func (g *gen) callOf(typ string, depth int) (string, bool) {
+	if g.curHasFault {
+		return "", false
+	}
 	var cands []function
 	for _, f := range g.funcs {
 		if len(f.results) == 1 && f.results[0] == typ {
@@ -226,6 +237,7 @@ func (g *gen) callOf(typ string, depth int) (string, bool) {
 		return "", false
 	}
 	f := cands[g.pick("callee", len(cands))]
+	g.curHasCall = true
 	var args []string
 	for _, p := range f.params {
 		args = append(args, g.expr(p, depth-1))
@@ -244,7 +256,7 @@ func (g *gen) intExpr(typ string, depth int) string {
 		// division and remainder: the divisor is a non-zero literal most of the time
 		op := g.oneOf("divop", []string{"/", "%"})
 		var d string
-		if g.chance("vardiv", 4) && !g.off["fault.divzero"] && !g.noFault {
+		if g.chance("vardiv", 4) && !g.off["fault.divzero"] && g.mayFault() {
 			d = g.expr(typ, depth-1)
 			g.feat("div_by_variable")
 		} else {
@@ -301,7 +313,7 @@ func (g *gen) intExpr(typ string, depth int) string {
 		}
 		if typ == "uint8" {
 			s := g.varsOf("string")
-			if len(s) > 0 && !g.off["fault.index"] && !g.noFault && g.chance("strindex", 2) {
+			if len(s) > 0 && !g.off["fault.index"] && g.chance("strindex", 2) && g.mayFault() {
 				g.feat("string_index")
 				return g.oneOf("idxstr", s) + "[" + g.oneOf("idx", []string{"0", "1", "2", "5"}) + "]"
 			}
@@ -312,7 +324,7 @@ func (g *gen) intExpr(typ string, depth int) string {
 		}
 	case 10:
 		if typ == "int" {
-			if vs := g.varsOf("[]int"); len(vs) > 0 && !g.off["fault.index"] && !g.noFault {
+			if vs := g.varsOf("[]int"); len(vs) > 0 && !g.off["fault.index"] && g.mayFault() {
 				g.feat("slice_index")
 				return g.oneOf("sl", vs) + "[" + g.oneOf("sidx", []string{"0", "1", "2", "3"}) + "]"
 			}
@@ -326,7 +338,7 @@ func (g *gen) intExpr(typ string, depth int) string {
 			if vs := g.varsOf("S0"); len(vs) > 0 {
 				return g.oneOf("sv", vs) + ".A"
 			}
-			if vs := g.varsOf("*S0"); len(vs) > 0 && !g.off["fault.nilptr"] && !g.noFault {
+			if vs := g.varsOf("*S0"); len(vs) > 0 && !g.off["fault.nilptr"] && g.mayFault() {
 				return g.oneOf("pv", vs) + ".A"
 			}
 		}
@@ -382,7 +394,7 @@ func (g *gen) strExpr(depth int) string {
 		g.feat("string_concat")
 		return "(" + g.expr("string", depth-1) + " + " + g.expr("string", depth-1) + ")"
 	case 2:
-		if vs := g.varsOf("string"); len(vs) > 0 && !g.off["fault.slice"] && !g.noFault {
+		if vs := g.varsOf("string"); len(vs) > 0 && !g.off["fault.slice"] && g.mayFault() {
 			g.feat("string_slice")
 			lo := g.oneOf("lo", []string{"0", "1", "2"})
 			hi := g.oneOf("hi", []string{"", "2", "3", "5"})
@@ -788,6 +800,7 @@ func (g *gen) stmtCall() {
 		return
 	}
 	f := g.funcs[g.pick("scallee", len(g.funcs))]
+	g.curHasCall = true
 	var args []string
 	for _, p := range f.params {
 		args = append(args, g.expr(p, 1))
@@ -905,6 +918,7 @@ func (g *gen) stmtPanicky() {
 
 func (g *gen) stmt() {
 	g.budget--
+	g.curHasCall, g.curHasFault = false, false
 	k := g.pick("stmt", 24)
 	if g.rangeDepth > 0 && g.off["recover.in_range"] && (k == 20 || k == 21 || k >= 23) {
 		k = 0 // no recovered panic (directly or through a helper) inside a range loop
